@@ -4,7 +4,7 @@ from common import *
 import pipe, gens
 
 RULE = ("the real Balancer (n_jobs=1, default threshold) on corpus reactions (quick: 300 sampled; thorough: the whole validation set) "
-        "and on generated reactions (hand-written stage-targeted cases, curated reactions with molecules dropped/inserted, random "
+        "(MCS-solved ones re-run with the score forced to 0.0 = the default threshold boundary, and to 1.0) and on generated reactions (hand-written stage-targeted cases, curated reactions with molecules dropped/inserted, random "
         "small-molecule reactions), in batches; every recorded batch is replayed through Model/Pipeline.run inside Coq (all public "
         "columns of all rows + the seven statistics) and every row is checked by RDKit-only oracles.  Non-trivial: a row that some "
         "stage edited (water insertion, completion, MCS append) before it was declined, or a declined carbon-deficit row, or a solved "
@@ -20,6 +20,8 @@ def oracle(ctx, b):
     for inp, r in zip(b["inputs"], b["rows"]) if len(b["inputs"]) == len(b["rows"]) else []:
         ctx.evaluations += 1
         case = {"input": inp, "row": r}
+        if b.get("force_conf") is not None:
+            case["forced_confidence"] = b["force_conf"]
         if not r["solved"]:
             if r["reaction"] != r["input_reaction"]:
                 ctx.fail("declined-row-altered", case, {})
@@ -57,11 +59,28 @@ def gen_run(ctx):
     return val
 
 
+def forced_run(ctx, bs):
+    """the scoring oracle's answer space: MCS-solved corpus reactions re-run with every score forced to 0.0
+    (the default threshold's boundary) and to 1.0"""
+    mcs = [inp for b in bs if len(b["rows"]) == len(b["inputs"]) for inp, r in zip(b["inputs"], b["rows"]) if r["solved_by"] == "mcs-based"]
+    mcs = mcs[:24 if ctx.quick() else 240]
+    batches = [mcs[i:i + 6] for i in range(0, len(mcs), 6)]
+    name = "c03forced_%s_%d" % (ctx.tier, ctx.seed)
+    val, _ = pipe.cached(name, lambda: pipe.run_batches(batches, force_conf=0.0) + pipe.run_batches(batches[:2], force_conf=1.0))
+    return val
+
+
 def run(ctx):
     from rdkit import RDLogger
     RDLogger.DisableLog("rdApp.*")
     bs = pipe.corpus_run(ctx)
     gs = gen_run(ctx)
+    fs = forced_run(ctx, bs)
+    ctx.count("inputs", "forced_confidence_rows", sum(len(b["inputs"]) for b in fs))
+    for b in fs:
+        if len(b["rows"]) == len(b["inputs"]):
+            oracle(ctx, b)
+    gs = gs + fs
     ctx.count("inputs", "corpus_rows", sum(len(b["inputs"]) for b in bs))
     ctx.count("inputs", "generated_rows", sum(len(b["inputs"]) for b in gs))
     for b in bs + gs:
@@ -79,7 +98,7 @@ def replay(ctx, rep):
     inp = case["input"] if isinstance(case, dict) and "input" in case else None
     if inp is None:
         print(json.dumps(rep, indent=1)[:3000]); return 0
-    b = pipe.run_batch([inp])
+    b = pipe.run_batch([inp], force_conf=case.get("forced_confidence"))
     print(json.dumps(b["rows"], indent=1))
     n = len(ctx.failures); oracle(ctx, b)
     return 1 if len(ctx.failures) > n else 0
